@@ -39,6 +39,11 @@ TypesHit(pl) == CASE pl = "module" -> {"T", "U"} [] pl = "type" -> {"T"} [] OTHE
 MethodsHitDirect(pl) == CASE pl = "impl" -> {"T.m1", "T.m2"} [] pl = "method" -> {"T.m1"} [] OTHER -> {}
 DisabledTypes(pl, holds) == IF holds THEN TypesHit(pl) ELSE {}
 DisabledMethods(pl, holds) == IF holds THEN MethodsHitDirect(pl) \cup {m \in Methods : OwnerOf(m) \in TypesHit(pl)} ELSE {}
+\* what is left of the reference program for a backend on which the condition holds.  A disabled item leaves NO trace: the
+\* backend's output is that of the program in which the item was never written -- in particular nothing about the item (that it
+\* was a comparison / iterator / iterable, the types its signature mentions) may influence how its owner is rendered, and a
+\* signature the backend could not lower is no error.  (Replayed for the impl and method places: `Erased` program vs. disabled.)
+Remaining(pl, holds) == [types |-> Types \ DisabledTypes(pl, holds), methods |-> Methods \ DisabledMethods(pl, holds)]
 \* rename: module -> its types only (never methods); type -> that type; impl -> its methods; method -> it
 RenamedTypes(pl, holds) == IF holds THEN TypesHit(pl) ELSE {}
 RenamedMethods(pl, holds) == IF holds THEN MethodsHitDirect(pl) ELSE {}
